@@ -10,7 +10,7 @@
 From Coq Require Import List NArith ZArith Arith Bool Lia.
 From Tongo Require Import Lib.Bits Lib.Res Model.BocParse Model.CellHash Spec.ReprHash Model.Wallet
   Model.WalletSend Proofs.WalletP Proofs.WalletRtP.
-From Tongo Require Spec.Dict Model.Hashmap.
+From Tongo Require Spec.Dict Model.Hashmap Model.WalletTransfer.
 Import ListNotations.
 
 (** *** F11 *)
@@ -97,6 +97,7 @@ Definition memo_step (w : wallet) (cache : option cell) (op : wop) : option cell
                            (Some c, ANextP (Ok (s, Some c)))
       | r => (cache, ANextP r)
       end
+  | ORekey _ => (cache, ADone)
   end.
 Definition memo_design : design := mkdesign (option cell) None memo_step.
 
@@ -116,3 +117,50 @@ Proof.
 Qed.
 
 End Memo.
+
+(** *** round 4.  (a) ContractDeploy.ToInternal addressing the deployment to
+    workchain 0 whatever workchain was requested: the carried message differs
+    from the requested transfer as soon as the workchain is not 0. *)
+Lemma deploy_drops_workchain_refuted :
+  forall chash code data body amount t t0,
+  WalletTransfer.deploy_transfer chash (-1) (Some code) (Some data) body amount = Ok t ->
+  WalletTransfer.deploy_transfer chash 0 (Some code) (Some data) body amount = Ok t0 ->
+  t <> t0.
+Proof.
+  intros chash code data body amount t t0 H H0. unfold WalletTransfer.deploy_transfer in *.
+  destruct (chash _) as [h| |]; try discriminate. cbn [bind] in *. injection H as <-. injection H0 as <-.
+  intros E. apply (f_equal WalletTransfer.t_wc) in E. discriminate.
+Qed.
+
+(** (b) New keeping a VIEW of the caller's private-key slice as the wallet's public
+    key: the key the state-init is built from is read when the call is made, so
+    the caller reusing its key buffer changes every later state-init (the address,
+    computed once in New, stays). *)
+Section Alias.
+Variable code : version -> cell.
+Variable chash : cell -> res bytes.
+
+Definition with_pk (w : wallet) (pk : bits) : wallet :=
+  mkw (w_ver w) pk (w_wc w) (w_sub w) (w_net w) (w_wid w).
+
+(* state = what the aliased buffer holds now *)
+Definition alias_step (w : wallet) (pk : bits) (op : wop) : bits * wans :=
+  match op with
+  | OStateInit => (pk, AInit (state_init code (with_pk w pk)))
+  | OMutate _ => (pk, ADone)
+  | OAddress => (pk, AAddr (address code chash w))
+  | ONext a => (pk, ANextP (next_params code (with_pk w pk) a))
+  | ORekey pk' => (pk', ADone)
+  end.
+Definition alias_design (w : wallet) : design := mkdesign bits (w_pk w) alias_step.
+
+Lemma key_aliasing_design_refuted w pk' :
+  state_init code (with_pk w pk') <> state_init code w ->
+  run_design (alias_design w) w (w_pk w) [ORekey pk'; OStateInit]
+  <> map (fresh_answer code chash w) [ORekey pk'; OStateInit].
+Proof.
+  intros Hne H. cbn [run_design alias_design d_step alias_step map fst snd fresh_answer] in H.
+  injection H as H. contradiction.
+Qed.
+
+End Alias.
